@@ -70,6 +70,20 @@ def gen_closure(rng, tier):
     global _ALL
     if _ALL is None:
         _ALL = all_assertions()
+    if rng.random() < .3:
+        # a derivation that needs contraction and then decomposition: {X _|_ W | Y,Z ; X _|_ Y | Z} |- X _|_ W | Z (and X _|_ Y,W | Z);
+        # the entailed statement mentions fewer variables than the premises
+        x, w, y, z = rng.sample(range(4), 4)
+        a = [[x], [w], sorted([y, z])]
+        b = [[x], [y], [z]]
+        if rng.random() < .5:
+            a = [a[1], a[0], a[2]]
+        if rng.random() < .5:
+            b = [b[1], b[0], b[2]]
+        prem = [a, b]
+        rng.shuffle(prem)
+        q = rng.choice([[[x], [w], [z]], [[w], [x], [z]], [[x], sorted([w, y]), [z]]])
+        return {"assertions": prem, "other": [q]}
     k = rng.choice([3, 3, 4])
     s = rng.sample(_ALL, k)
     t = rng.sample(_ALL, rng.randint(1, 2))
@@ -396,6 +410,64 @@ def run_imap(case, drv):
     return ok(nontrivial=n > 2, style=case["style"])
 
 
+# ----------------------------------------------------------------------------- is_imap verdicts
+def gen_isimap(rng, tier):
+    case = gen.rand_bn(rng, nmin=3, nmax=4, maxcard=2, name_kind="str", mincard=2, label_kind="int", positive=True, dup=False)
+    n = len(case["nodes"])
+    perm = list(range(n))
+    rng.shuffle(perm)
+    rot = rng.randint(0, n - 1)
+    case["perm"] = perm          # order in which the joint table lists the variables
+    case["rot"] = rot            # roles of the variables rotated by `rot` positions (0 = the network's own joint)
+    return case
+
+
+def run_isimap(case, drv):
+    """bn.is_imap(J) / J.is_imap(bn): accepting a joint means that the independencies the graph encodes hold in it; the network's
+    own joint is accepted in whatever order the table lists the variables"""
+    from pgmpy.factors.discrete import JointProbabilityDistribution as JPD
+    names, card = case["nodes"], case["card"]
+    pn = [gen.lab(x) for x in names]
+    n = len(names)
+    bn = gen.bn_to_pgmpy(case)
+    j = drv.call("bn_joint", fs=gen.bn_model_factors(case), vars=list(range(n)), cards=card)
+    base = {tuple(asg[v] for v in range(n)): core.model_value(j, asg) for asg in core.all_assignments(list(range(n)), card)}
+    rot = case["rot"]
+    # rotated joint: variable v plays the role of variable (v + rot) mod n  (all binary, so cardinalities fit)
+    tab = {a: base[tuple(a[(v + rot) % n] for v in range(n))] for a in base}
+    perm = case["perm"]
+    vals = []
+    for idx in itertools.product(*[range(card[v]) for v in perm]):
+        a = [0] * n
+        for pos, v in enumerate(perm):
+            a[v] = idx[pos]
+        vals.append(float(tab[tuple(a)]))
+    jpd = JPD([pn[v] for v in perm], [card[v] for v in perm], vals)
+    same = all(tab[a] == base[a] for a in base)
+    tags = dict(n=n, rot=rot, same=same)
+    try:
+        v1 = bool(bn.is_imap(jpd))
+        v2 = bool(jpd.is_imap(bn))
+    except Exception as e:
+        return fail(f"is_imap raised {type(e).__name__}: {e}", **tags)
+    if v1 != v2:
+        return fail(f"BayesianNetwork.is_imap says {v1}, JointProbabilityDistribution.is_imap says {v2}", **tags)
+    if same and not v1:
+        return fail(f"the network is not accepted as an I-map of its own joint (table listed in the order {[pn[v] for v in perm]})", **tags)
+    if v1 and not same:
+        # accepted although the table differs: then at least every local Markov independence of the graph must hold in it
+        p = {"scope": list(range(n)), "card": card, "vals": [rs(tab[a]) for a in sorted(tab)]}
+        mg = {"nodes": list(range(n)), "edges": case["edges"]}
+        for v in range(n):
+            pa = sorted(u for u, w in case["edges"] if w == v)
+            desc = set(drv.call("g_descendants", g=mg, zs=[v]))
+            nd = [u for u in range(n) if u != v and u not in desc and u not in pa]
+            if nd and not drv.call("ci_holds", p=p, x=[v], y=nd, z=pa):
+                return fail(f"is_imap accepts a joint in which {pn[v]} is not independent of {[pn[u] for u in nd]} given its parents "
+                            f"{[pn[u] for u in pa]} (edges {case['edges']}, table order {[pn[v_] for v_ in perm]})", **tags)
+    return ok(nontrivial=n >= 3, **tags)
+
+
 STREAMS = [
     Stream("closure_exhaustive", enum=enum_closure, run=run_closure),
     Stream("closure_random", gen_closure, run_closure, quick=300, thorough=3000),
@@ -404,4 +476,5 @@ STREAMS = [
     Stream("iequiv_random", gen_iequiv, run_iequiv, quick=200, thorough=2000),
     Stream("check_independence", gen_ci, run_ci, quick=900, thorough=9000),
     Stream("imap", gen_imap, run_imap, quick=300, thorough=3000),
+    Stream("is_imap", gen_isimap, run_isimap, quick=300, thorough=3000),
 ]
